@@ -123,6 +123,23 @@ Definition names_state (cur : nstate) (r : reply) : bool :=
   | _ => true
   end.
 
+(* what web_nodes tells the operator about the hosted services is what the services said:
+   exactly the hosted services are listed; one is shown as retired iff a "retired" notification
+   naming it was delivered (whenever that was: before, between or after retire commands), and as
+   supporting retirement iff it declared so in answer to the support query - no notification,
+   command or topology change books support.  (What a not yet retired service is shown as is
+   left open.) *)
+Definition nodes_view (cfg : config) (h : list op) (l : list (Z * (nstate * bool))) : bool :=
+  forallb (fun n => match aget n l with
+                    | Some (st, sp) => Bool.eqb (nstate_eqb st Retired) (reported h n)
+                                       && Bool.eqb sp (declared cfg h n)
+                    | None => false
+                    end) (names cfg)
+  && forallb (fun kv => hosted cfg (fst kv)) l.
+
+Definition reply_view (cfg : config) (h : list op) (r : reply) : bool :=
+  match r with RNodes _ l => nodes_view cfg h l | _ => true end.
+
 (* what is specific to the kind of operation; cur = the state last published before it *)
 Definition check_op (cfg : config) (h : list op) (cur : nstate) (o : op)
            (r : reply) (evs : list aev) (sends : list (Z * kcmd)) : bool :=
@@ -167,7 +184,14 @@ Definition check (cfg : config) (h : list op) (tr : list obs) (o : op) (b : obs)
   && (if existsb (nstate_eqb Retired) (pubs_ob b) then all_reported cfg (h ++ [o]) else true)
   (* a reply that names the node state names the state last published *)
   && names_state cur (reply_of b)
-  && check_op cfg h cur o (reply_of b) (evs_of b) (sends_of b).
+  && check_op cfg h cur o (reply_of b) (evs_of b) (sends_of b)
+  (* ... and it does report itself retired (or is beyond) as soon as every hosted service has:
+     once the last of them has reported - in whatever order the reports and the retire commands,
+     accepted or refused, repeated or not, came - the state published last is retired or later *)
+  && (if negb (is_nil cfg) && all_reported cfg (h ++ [o])
+      then 3 <=? rank (last (pubs_ob b) cur) else true)
+  (* web_nodes shows the services as they reported / declared *)
+  && reply_view cfg h (reply_of b).
 
 Fixpoint holds_from (cfg : config) (hist : list op) (tr : list obs) (ops : list op) (bs : list obs) : bool :=
   match ops, bs with
